@@ -104,6 +104,13 @@ def consumers(ptype, v, nm, style, rich):
             out.append(("Select", "N", f"Select({s}, lambda {k4}: kwfn({el4}, ref={n}))"))
             out.append(("Select", t, f"Where({s}, lambda {k2}: {el2} > {n})"))
             out.append(("SelectMany", "I", f"Select({s}, lambda {k3}: {el3} + {n})"))
+    # the package handed WHOLE to a called lambda with a defaulted parameter (given by keyword / left alone)
+    qn = nm.fresh("q")
+    intsq = [e for t, e in projections(ptype, qn, style) if t == "I"]
+    if intsq:
+        out.append(("Select", "I", f"(lambda {qn}, s9=1: {intsq[0]} + s9)({v}, s9=2)"))
+        out.append(("Select", "I", f"(lambda {qn}, s9=1: {intsq[0]} + s9)({v})"))
+        out.append(("Select", "I", f"(lambda s9, {qn}=0: {intsq[0]} + s9)({qn}={v}, s9=2)"))
     # re-packaging: swap the first two leaves into a new package (a result package, or input of stage 3)
     if len(pr) >= 2:
         (t0, e0), (t1, e1) = pr[0], pr[1]
